@@ -2,30 +2,38 @@
 # Regression of the detection evidence, off to the side: every seeded change (and, with "mutants",
 # every own mutant) is applied to a scratch worktree of /repo under /tmp/mx, a copy of the harness
 # is built against that worktree, and the change's own property check (quick) is run.
-# Output: /verif/seeded/OWN_MATRIX.txt.  Removes /tmp/mx when done.
+# Output: /verif/seeded/OWN_MATRIX.txt.  Removes its scratch directory when done.
+# usage: own_matrix.sh [shard nshards]   (shards write /tmp/OWN_MATRIX.<shard>.txt; concatenate them)
 set -u
-MX=/tmp/mx
+SHARD=${1:-0}; NSHARDS=${2:-1}
+MX=/tmp/mx$SHARD
 rm -rf $MX; mkdir -p $MX/root
 git -C /repo worktree prune
 git -C /repo worktree add --detach $MX/repo HEAD >/dev/null 2>&1 || { echo "cannot create worktree"; exit 2; }
 rsync -a --exclude target /verif/harness/ $MX/harness/
 sed -i "s#/repo/#$MX/repo/#g" $MX/harness/Cargo.toml
-sed -i "s#/verif/harness/target#$MX/target#" $MX/harness/.cargo/config.toml
+sed -i "s#/verif/harness/target#$MX/harness/target#" $MX/harness/.cargo/config.toml
+sed "s#/verif/harness#$MX/harness#g" /verif/vcheck > $MX/vcheck; chmod +x $MX/vcheck
 sed -i "s#\"/repo/public-suffix/public_suffix_list.dat\"#\"$MX/repo/public-suffix/public_suffix_list.dat\"#" $MX/harness/src/props/c10.rs
 cp /verif/KNOWN_FINDINGS.txt $MX/root/
-OUT=/verif/seeded/OWN_MATRIX.txt
+OUT=/verif/seeded/OWN_MATRIX.txt; [ $NSHARDS -gt 1 ] && OUT=/tmp/OWN_MATRIX.$SHARD.txt
 : > $OUT
 run_one() { # <patch> <name> <prop>
   cd $MX/repo && git checkout -q -- . && git clean -fdq
   git apply "$1" || { echo "$2: patch does not apply" >> $OUT; return; }
   cd $MX/harness
-  if ! CARGO_NET_OFFLINE=true cargo build --release --offline -q > $MX/build.log 2>&1; then echo "$2: harness does not build" >> $OUT; return; fi
-  VERIF_ROOT=$MX/root VERIF_REPO=$MX/repo timeout 900 $MX/target/release/vcheck $3 --tier quick > $MX/out.txt 2>&1; rc=$?
+  VERIF_ROOT=$MX/root VERIF_REPO=$MX/repo timeout 1800 $MX/vcheck $3 --tier quick > $MX/out.txt 2>&1; rc=$?
+  if grep -q "harness build failed" $MX/out.txt; then echo "$2: harness does not build" >> $OUT; return; fi
   k=$(grep -c "^VIOLATION" $MX/out.txt)
   echo "$2: $3 exit=$rc violations=$k $(grep -m1 violation-detail $MX/out.txt | cut -c1-140)" >> $OUT
 }
+i=0
 for d in /verif/seeded/*/; do
+  i=$((i+1)); [ $((i % NSHARDS)) -eq $SHARD ] || continue
   n=$(basename $d); p=${n%%-*}
+  # a change whose violation belongs to another property's check names it in meta.json ("own_check")
+  oc=$(python3 -c "import json;print(json.load(open('$d/meta.json')).get('own_check',''))" 2>/dev/null)
+  [ -n "$oc" ] && p=$oc
   run_one $d/patch.diff $n $p
 done
 cd /; git -C /repo worktree remove --force $MX/repo; git -C /repo worktree prune; rm -rf $MX
